@@ -83,6 +83,13 @@ theorem receive_skips_decoys (P : Prims) (hmac : ∀ k m, (P.mac k m).length = 1
     recvPacket P fuel d (w ++ rest) A = .ok p.contents d' rest :=
   Lemmas.recvPacket_skips P hmac ds p A d d' w rest fuel hds hp hf ha hs
 
+/-- the exported length cipher FSChaCha20 on chunks of ANY sizes (not only the 3-byte fields of the
+packet layer): a second instance started from the same state decrypts every chunk in order and
+ends in the same state — across any number of rekeys -/
+theorem length_cipher_sync (P : Prims) (cs : List (List UInt8)) (s : FSC) :
+    Lemmas.fscAll P s (Lemmas.fscAll P s cs).1 = (cs, (Lemmas.fscAll P s cs).2) :=
+  Lemmas.fscAll_invol P cs s
+
 /-! ### accepted ⇒ sealed -/
 
 /-- If a receiver in state `d` accepts a packet from ANY byte stream `wire`, then the bytes it
